@@ -28,6 +28,8 @@ func (r *Repository) Commit(treeID Hash, targetRef, message string, sign bool) (
 		}
 	}
 
+	verifYield("commit:tip-read", targetRef)
+
 	args := []string{"commit-tree", "-m", message}
 
 	if !currentGitID.IsZero() {
@@ -89,6 +91,8 @@ func (r *Repository) CommitUsingSpecificKey(treeID Hash, targetRef, message stri
 			return ZeroHash, err
 		}
 	}
+
+	verifYield("commit:tip-read", targetRef)
 
 	if !refTip.IsZero() {
 		commit.ParentHashes = []plumbing.Hash{plumbing.NewHash(refTip.String())}
